@@ -93,7 +93,7 @@ func gen(t *rapid.T) Case {
 		switch rapid.IntRange(0, 9).Draw(t, "patMode") {
 		case 0, 1:
 			call.Label = "documented-fault"
-			f := rapid.SampledFrom([]string{"{}", "{:r}", "{q:[}", "{q:(}", "ADJ", "DUP"}).Draw(t, "fault")
+			f := rapid.SampledFrom([]string{"{}", "{:r}", "{q:[}", "{q:(}", "{q:a)|(b}", "ADJ", "DUP"}).Draw(t, "fault")
 			switch f {
 			case "ADJ":
 				if i := strings.IndexByte(base.Src, '}'); i >= 0 {
